@@ -371,7 +371,7 @@ func (p *Program) handlerOf(v ssa.Value) *ssa.Function {
 
 // eventRegSites: registrations of handlers for the events a property is
 // sensitive to, whose handler is not under contract for the property.
-func (v *Verifier) eventRegSites(when map[string][]string) func(fn *ssa.Function) []sweepSite {
+func (v *Verifier) eventRegSites(when map[string][]string, label, clause string) func(fn *ssa.Function) []sweepSite {
 	p := v.Prog
 	evName := func(c ssa.Value) string {
 		k, ok := c.(*ssa.Const)
@@ -428,7 +428,7 @@ func (v *Verifier) eventRegSites(when map[string][]string) func(fn *ssa.Function
 				if h != nil && p.inRepo(h) {
 					// a handler nobody wrote a contract for gets the default one
 					// (transparency), checked against its body like any other
-					v.defaultHandlerContract(p.funcKey(h))
+					v.defaultHandlerContract(p.funcKey(h), label, clause)
 					continue
 				}
 				out = append(out, sweepSite{p.posOf(ins), "registers an unresolved function value for " + callee.Name() + "(" + ev + "): cannot be put under contract for " + v.Prop})
@@ -446,7 +446,7 @@ const defaultHandlerClause = `(!panics && result.1 == nil) ==> (result.0 == fals
 	`!emits Sess.Put(_, _) && !emits Sess.Del(_) && !emits Sess.DelAll(_) && !emits Cook.Put(_, _) && !emits Cook.Del(_) && ` +
 	`!emits HeaderSet(_, _, _) && !emits WriteHeader(_, _) && !emits Write(_, _) && !emits HTTPRedirect(_, _, _))`
 
-func (v *Verifier) defaultHandlerContract(key string) {
+func (v *Verifier) defaultHandlerContract(key, label, clause string) {
 	fc := v.CS.Funcs[key]
 	if fc == nil {
 		rel := key
@@ -457,18 +457,23 @@ func (v *Verifier) defaultHandlerContract(key string) {
 		v.CS.Funcs[key] = fc
 	}
 	for _, c := range fc.Clauses {
-		if c.Label == "unlisted_handler_transparent" {
+		if c.Label == label {
 			return
 		}
 	}
-	n, err := parseExpr(defaultHandlerClause)
+	n, err := parseExpr(clause)
 	if err != nil {
 		v.Errors = append(v.Errors, "default handler contract: "+err.Error())
 		return
 	}
-	fc.Clauses = append(fc.Clauses, &Clause{Kind: "ensures", Label: "unlisted_handler_transparent", Props: []string{v.Prop}, Text: defaultHandlerClause, Expr: n})
+	fc.Clauses = append(fc.Clauses, &Clause{Kind: "ensures", Label: label, Props: []string{v.Prop}, Text: clause, Expr: n})
 	v.VerifyFunc(fc)
 }
+
+// C02's default contract for a handler that runs before the second factor was
+// checked (before-auth and auth-hijack handlers): it mints nothing that could
+// later authenticate - no session identity, no cookie, no remember token.
+const preFactorHandlerClause = `(each Sess.Put(?k, _) => k != "uid") && !emits Cook.Put(_, _) && !emits Store.AddRememberToken(_, _)`
 
 // defaultSecretsContract: C17's default contract for a function that writes to
 // the log or to storage and has no written contract - "no_secret_leak:
@@ -511,5 +516,140 @@ func (v *Verifier) defaultSecretsContract(fn *ssa.Function, callers map[*ssa.Fun
 		fc.Clauses = append(fc.Clauses, &Clause{Kind: "ensures", Label: "no_secret_leak", Props: []string{v.Prop}, Text: "secrets_clean", Expr: n})
 		v.VerifyFunc(fc)
 	}
+	return true
+}
+
+// underlyingUseSites (C11): a method of ClientStateResponseWriter that calls
+// anything on (or hands to anything) the writer it wraps releases bytes - or
+// lets others release them - behind the flush; it must be under contract.
+func (p *Program) underlyingUseSites(fn *ssa.Function) []sweepSite {
+	recv := fn.Signature.Recv()
+	if recv == nil || len(fn.Params) == 0 {
+		return nil
+	}
+	rt := recv.Type()
+	if pp, ok := rt.(*types.Pointer); ok {
+		rt = pp.Elem()
+	}
+	if !isNamed(rt, abPkg, "ClientStateResponseWriter") {
+		return nil
+	}
+	derived := map[ssa.Value]bool{}
+	isUnderlyingField := func(v ssa.Value) bool {
+		switch x := v.(type) {
+		case *ssa.FieldAddr:
+			if st, ok := x.X.Type().Underlying().(*types.Pointer); ok {
+				if s, ok := st.Elem().Underlying().(*types.Struct); ok && x.Field < s.NumFields() {
+					return s.Field(x.Field).Name() == "ResponseWriter"
+				}
+			}
+		case *ssa.Field:
+			if s, ok := x.X.Type().Underlying().(*types.Struct); ok && x.Field < s.NumFields() {
+				return s.Field(x.Field).Name() == "ResponseWriter"
+			}
+		}
+		return false
+	}
+	for changed := true; changed; {
+		changed = false
+		for _, b := range fn.Blocks {
+			for _, ins := range b.Instrs {
+				v, ok := ins.(ssa.Value)
+				if !ok || derived[v] {
+					continue
+				}
+				d := false
+				switch x := ins.(type) {
+				case *ssa.UnOp:
+					d = isUnderlyingField(x.X) || derived[x.X]
+				case *ssa.Field:
+					d = isUnderlyingField(x)
+				case *ssa.TypeAssert:
+					d = derived[x.X]
+				case *ssa.Extract:
+					d = derived[x.Tuple]
+				case *ssa.ChangeInterface:
+					d = derived[x.X]
+				case *ssa.MakeInterface:
+					d = derived[x.X]
+				case *ssa.Phi:
+					for _, e := range x.Edges {
+						if derived[e] {
+							d = true
+						}
+					}
+				}
+				if d {
+					derived[v] = true
+					changed = true
+				}
+			}
+		}
+	}
+	var out []sweepSite
+	for _, b := range fn.Blocks {
+		for _, ins := range b.Instrs {
+			c, ok := ins.(ssa.CallInstruction)
+			if !ok {
+				continue
+			}
+			cc := c.Common()
+			if cc.IsInvoke() && derived[cc.Value] {
+				out = append(out, sweepSite{p.posOf(ins), "calls " + cc.Method.Name() + " on the wrapped writer"})
+				continue
+			}
+			for _, a := range cc.Args {
+				if derived[a] {
+					out = append(out, sweepSite{p.posOf(ins), "hands the wrapped writer to " + cc.Value.Name()})
+					break
+				}
+			}
+		}
+	}
+	return out
+}
+
+// redirectSites (C15): calls of the configured Redirector.
+func (p *Program) redirectSites(fn *ssa.Function) []sweepSite {
+	var out []sweepSite
+	for _, b := range fn.Blocks {
+		for _, ins := range b.Instrs {
+			c, ok := ins.(ssa.CallInstruction)
+			if !ok {
+				continue
+			}
+			cc := c.Common()
+			if cc.IsInvoke() && cc.Method.Name() == "Redirect" && strings.HasSuffix(cc.Value.Type().String(), "Redirector") {
+				out = append(out, sweepSite{p.posOf(ins), "answers with a redirect"})
+			}
+		}
+	}
+	return out
+}
+
+// defaultRedirectContract: C15's default contract for a function that answers
+// with redirects and has no written C15 contract: what the client supplied
+// appears in the target only inside the query part.
+func (v *Verifier) defaultRedirectContract(fn *ssa.Function, callers map[*ssa.Function][]*ssa.Function) bool {
+	key := v.Prog.funcKey(fn)
+	if strings.HasPrefix(key, "mocks:") || fn.Blocks == nil {
+		return false
+	}
+	n, err := parseExpr("each Redirect(?ro) => query_only(ro.RedirectPath)")
+	if err != nil {
+		v.Errors = append(v.Errors, "default redirect contract: "+err.Error())
+		return false
+	}
+	fc := v.CS.Funcs[key]
+	if fc == nil {
+		rel := key
+		if i := strings.Index(key, ":"); i >= 0 {
+			rel = key[:i]
+		}
+		fc = &FuncContract{Pkg: rel, Key: key, File: "(default C15 contract)", Options: map[string]string{}}
+		v.CS.Funcs[key] = fc
+	}
+	fc.Clauses = append(fc.Clauses, &Clause{Kind: "ensures", Label: "target_from_configuration", Props: []string{v.Prop}, Text: "each Redirect(?ro) => query_only(ro.RedirectPath)", Expr: n})
+	v.VerifyFunc(fc)
 	return true
 }
